@@ -45,6 +45,10 @@ HARNESS_FUNCS = re.compile(r"^(sc_|child_main|main$|world_|mk|send_tracked|simpl
                            r"finish_with|prologue|pump|vn_|run_fa|h_|on_|dump_|\?\?|_start|__libc)")
 
 
+RECEIVE_DROP = re.compile(r"^(coap_pdu_init<coap_handle_dgram|coap_pdu_resize<coap_pdu_parse<coap_handle_dgram|"
+                          r"coap_pdu_resize<coap_pdu_check_resize<coap_pdu_parse<coap_handle_dgram)")
+
+
 def parse_result(line):
     """one result line of 'fa' -> dict"""
     d = {"raw": line}
@@ -321,8 +325,20 @@ def enumerate_variant(run, model, exe, variant, scen_list, pairs, stats, env=Non
                 run.hist("coap_send_outcomes", ",".join(x.split(":")[1] for x in d["sends"].split(",")))
             if not bad:
                 continue
-            nfail += 1
             chains = [rs.chain(nt["bt"]) for nt in notices] or ["?"]
+            # A failed allocation for an *incoming* datagram is a lost datagram.  What the protocol
+            # does under message loss alone (a request that is processed twice because its ACK was
+            # lost: libcoap servers do not deduplicate) is C07's subject, not an allocation defect.
+            # Only the "delivered N times" verdict is excused, and only in runs that contain such a
+            # lost datagram; every other check applies unchanged.
+            if any(RECEIVE_DROP.match(c) for c in chains):
+                lossy = [b for b in bad if b[0] == "wrong-result" and "delivered-" in b[1]]
+                if lossy:
+                    run.hist("loss_equivalent_runs", "duplicate delivery under message loss only")
+                    bad = [b for b in bad if b not in lossy]
+                    if not bad:
+                        continue
+            nfail += 1
             last = notices[-1] if notices else None
             for kind, detail in bad:
                 dkey = re.sub(r"\d+", "N", detail)[:60] if kind in ("wrong-result",) else ""
